@@ -42,6 +42,10 @@ var c15Single = []c15Op{
 	// sort returns a copy: changing the copy must not change the array
 	{"sort().push(5)", func(a func() Expr) Expr { return CallE(Mem(CallE(Mem(a(), "sort")), "push"), N("5")) }},
 	{"sort()[0]=6", func(a func() Expr) Expr { return Asg("=", Idx(CallE(Mem(a(), "sort")), N("0")), N("6")) }},
+	// pushing the null read from beyond the end: the new element is an ordinary null, a later store into it stays in this array
+	{"push([len+2])", func(a func() Expr) Expr {
+		return CallE(Mem(a(), "push"), Idx(a(), Bin("+", CallE(Mem(a(), "length")), N("2"))))
+	}},
 }
 
 const c15Core = 11 // the first 11 operations: the length-changing ones, reads and writes
@@ -60,7 +64,12 @@ var c15Places = []c15Place{
 	{"m[0]", []Stmt{Ex(Asg("=", V("m"), Arr_(Arr_(), N("4"))))}, "", func() Expr { return Idx(V("m"), N("0")) }},
 	// the array literal is built anew for every element of the input: nothing of one element's array may reach the next
 	{"literal per element", []Stmt{Ex(Asg("=", V("a"), Arr_(N("3"), N("1"), N("2"))))}, `[1,2]`, func() Expr { return V("a") }},
+	// several arrays of the same document, most of them empty: each record's array is its own
+	{"$.t of every record", nil, `[{"t":[]},{"t":[]},{"t":[1]},{"t":[]}]`, func() Expr { return Mem(V("$"), "t") }},
+	{"$.arr of every value of a stream", nil, "{\"arr\":[]}\n{\"arr\":[]}\n{\"arr\":[],\"brr\":[]}", func() Expr { return Mem(V("$"), "arr") }},
 }
+
+func c15DocPlace(p int) bool { return p == 1 || p >= 5 }
 
 func av() Expr { return V("a") }
 func bv() Expr { return V("b") }
@@ -82,6 +91,11 @@ var c15Dual = []c15Op{
 	}},
 	{"b=a", func(func() Expr) Expr { return Asg("=", bv(), av()) }},
 	{"a.push(b)", func(func() Expr) Expr { return CallE(Mem(av(), "push"), bv()) }},
+	// a null read from beyond the end of the OTHER array (or from a missing member) becomes an ordinary element
+	{"a.push(b[4])", func(func() Expr) Expr { return CallE(Mem(av(), "push"), Idx(bv(), N("4"))) }},
+	{"a.push(b.nokey)", func(func() Expr) Expr { return CallE(Mem(av(), "push"), Mem(bv(), "nokey")) }},
+	{"a[-1]=9", func(func() Expr) Expr { return Asg("=", Idx(av(), Un("-", N("1"))), N("9")) }},
+	{"a[1]=8", func(func() Expr) Expr { return Asg("=", Idx(av(), N("1")), N("8")) }},
 }
 
 // operations on an array with unset elements; they print only booleans and
@@ -127,7 +141,7 @@ func c15Build(s c15Spec) *progCase {
 			op := c15Single[i]
 			body = append(body, Ex(Asg("=", V("r"), op.mk(pl.arr))), Pr(S(op.name), V("r"), pl.arr(), CallE(Mem(pl.arr(), "length"))))
 		}
-		if s.Place == 1 {
+		if c15DocPlace(s.Place) {
 			body = append(body, Pr(V("$")))
 		}
 	} else if s.Family == "unset" {
@@ -142,7 +156,7 @@ func c15Build(s c15Spec) *progCase {
 			body = append(body, Ex(Asg("=", V("r"), op.mk(nil))), Pr(S(op.name), V("r"), S("a"), av(), CallE(Mem(av(), "length")), S("b"), bv(), CallE(Mem(bv(), "length"))))
 		}
 	}
-	return &progCase{P: &Program{Rules: []*Rule{{Kind: kind, Body: Blk(body...)}}}, Files: files, Root: s.Place == 1 && s.Family == "single"}
+	return &progCase{P: &Program{Rules: []*Rule{{Kind: kind, Body: Blk(body...)}}}, Files: files, Root: c15DocPlace(s.Place) && s.Family == "single"}
 }
 
 func c15Check(c *fw.Ctx, s c15Spec) *fw.Violation {
@@ -202,12 +216,20 @@ func c15Plans(t fw.Tier) []c15Plan {
 	var out []c15Plan
 	if t == fw.Thorough {
 		for pl := range c15Places {
+			if pl >= 5 {
+				out = append(out, c15Plan{"single", pl, nS, 4}, c15Plan{"single", pl, c15Core, 5})
+				continue
+			}
 			out = append(out, c15Plan{"single", pl, nS, 5})
 		}
 		out = append(out, c15Plan{"single", 0, c15Core, 6}, c15Plan{"single", 1, c15Core, 6}, c15Plan{"dual", 0, nD, 5}, c15Plan{"unset", 0, len(c15Unset), 5})
 		return out
 	}
 	for pl := range c15Places {
+		if pl >= 5 {
+			out = append(out, c15Plan{"single", pl, nS, 3}, c15Plan{"single", pl, c15Core, 4})
+			continue
+		}
 		out = append(out, c15Plan{"single", pl, nS, 4})
 	}
 	out = append(out, c15Plan{"single", 0, c15Core, 5}, c15Plan{"dual", 0, nD, 4}, c15Plan{"unset", 0, len(c15Unset), 4})
@@ -229,9 +251,9 @@ func c15Units(t fw.Tier) (units [][3]int) {
 func init() {
 	fw.Register(&fw.Prop{
 		ID: "C15",
-		Rule: "all sequences of exactly D operations (every shorter history is a prefix of one of them, and a run prints result, contents and length after each operation) over 21 operations on one array " +
-			"(push of a number / string / array / unset value, pop, popfirst, reads and writes at 0, -1 and length, length, contains of a number / string / unset value, sort, and a push / index store into the result of sort), with the array held by a variable, inside the input document ($.arr, also compared through -o), inside an object (o.k), inside another array (m[0]) and as a literal rebuilt for every element of the input; 44 fixed arrays of 5-40 elements with equal sort keys but distinguishable values (stability at every length);  " +
-			"deeper histories over the 11 length-changing and indexing operations; all sequences over 11 operations on an array with unset elements (observed through booleans and numbers only); and all sequences over 14 operations on two arrays including calls nested in each other's arguments and aliasing; histories are not merged (slice capacity is hidden state); oracle: ideal list in the reference interpreter; " +
+		Rule: "all sequences of exactly D operations (every shorter history is a prefix of one of them, and a run prints result, contents and length after each operation) over 22 operations on one array " +
+			"(push of a number / string / array / unset value, pop, popfirst, reads and writes at 0, -1 and length, length, contains of a number / string / unset value, sort, a push / index store into the result of sort, and a push of the null read from beyond the end), with the array held by a variable, inside the input document ($.arr, also compared through -o), inside an object (o.k), inside another array (m[0]) as a literal rebuilt for every element of the input, as $.t of every record of a document with several empty arrays and as $.arr of every value of a stream (shorter histories); 44 fixed arrays of 5-40 elements with equal sort keys but distinguishable values (stability at every length);  " +
+			"deeper histories over the 11 length-changing and indexing operations; all sequences over 11 operations on an array with unset elements (observed through booleans and numbers only); and all sequences over 18 operations on two arrays including calls nested in each other's arguments and aliasing; histories are not merged (slice capacity is hidden state); oracle: ideal list in the reference interpreter; " +
 			"a state is a distinct model list reached; non-trivial = same",
 		Plan: func(t fw.Tier) int { return len(c15Units(t)) },
 		Bound: func(t fw.Tier) string {
